@@ -37,6 +37,10 @@ pub struct GraphCase {
     /// run in --needed mode (same expected results as a normal build)
     #[serde(default)]
     pub needed: bool,
+    /// a first run of the same process over the same paths takes place while this file's source
+    /// does not exist yet; its result is discarded
+    #[serde(default)]
+    pub late: Option<usize>,
 }
 
 #[derive(Clone, Copy, PartialEq, Eq, Debug)]
@@ -83,6 +87,18 @@ pub fn execute(case: &GraphCase, pr: &Prepared) -> GraphRun {
         for i in 0..case.graph.n {
             let p = pr.su.sc.root.join(case.graph.out_path(i));
             let _ = std::fs::write(p, format!("STALE-OUTPUT-OF-f{i}\n"));
+        }
+    }
+    if let Some(i) = case.late.filter(|i| *i < case.graph.n) {
+        let _ = std::fs::remove_file(pr.su.sc.root.join(case.graph.src_path(i)));
+        let _ = runner::run(&pr.su.sc.root, &pr.opts, Arc::new(Ctl::free()));
+        pr.su.sc.reset();
+        pr.su.write(&pr.project);
+        if case.stale {
+            for i in 0..case.graph.n {
+                let p = pr.su.sc.root.join(case.graph.out_path(i));
+                let _ = std::fs::write(p, format!("STALE-OUTPUT-OF-f{i}\n"));
+            }
         }
     }
     let ctl = match &case.sched {
